@@ -3,7 +3,8 @@
 ROOT=$(readlink -f "$(dirname "$0")/.."); cd "$ROOT"
 tier=$1; par=$2; shift 2
 out=${SWEEP_OUT:-/tmp/sweep_$$}; mkdir -p $out
-for s in "$@"; do for i in 01 02 03 04 05 06 07 08 09 10 11 12 13 14 15 16 17 18 19 20; do echo "$s C$i"; done; done | \
+PROPS=${PROPS:-"C01 C02 C03 C04 C05 C06 C07 C08 C09 C10 C11 C12 C13 C14 C15 C16 C17 C18 C19 C20"}
+for s in "$@"; do for i in $PROPS; do echo "$s $i"; done; done | \
   xargs -P $par -L 1 sh -c 'VERIF_SEED=$0 ./check $1 --tier '$tier' > '$out'/$1.s$0.log 2>&1; echo "$1 seed=$0 exit=$?"' | tee $out/summary.txt
 grep -v "exit=0" $out/summary.txt && grep -h "^VIOLATION\|infrastructure" $out/*.log
 echo "sweep done: $(grep -c 'exit=0' $out/summary.txt) ok of $(wc -l < $out/summary.txt)"
